@@ -2,6 +2,7 @@ package impl
 
 import (
 	"encoding/hex"
+	gqlparser "github.com/vektah/gqlparser/v2"
 	"sort"
 	"strconv"
 	"strings"
@@ -101,6 +102,33 @@ func LoadCanon(texts []string) string {
 	if err != nil {
 		return ErrObsSrc(err, byName)
 	}
+	return CanonOfSchema(sc)
+}
+
+// LoadHistory: gqlparser.LoadSchema (the top-level entry point, with the library's own prelude
+// source) on each source set in turn, in this one process; observations joined by ";;".
+func LoadHistory(sets [][]string) string {
+	var out []string
+	for _, texts := range sets {
+		var srcs []*ast.Source
+		byName := map[string]int{validator.Prelude.Name: 0}
+		for i, t := range texts {
+			s := &ast.Source{Name: "u" + strconv.Itoa(i+1), Input: t}
+			srcs = append(srcs, s)
+			byName[s.Name] = i + 1
+		}
+		sc, err := gqlparser.LoadSchema(srcs...)
+		if err != nil {
+			out = append(out, ErrObsSrc(err, byName))
+		} else {
+			out = append(out, CanonOfSchema(sc))
+		}
+	}
+	return strings.Join(out, ";;")
+}
+
+// CanonOfSchema: the order-insensitive dump of a loaded schema.
+func CanonOfSchema(sc *ast.Schema) string {
 	var sb strings.Builder
 	root := func(tag string, d *ast.Definition) {
 		if d != nil {
@@ -209,4 +237,19 @@ func LoadCanon(texts []string) string {
 func init() {
 	// loadcanon <hex src>… : order-insensitive dump of the loaded schema (hex) or E,…
 	Ops["loadcanon"] = func(a []string) string { return LoadCanon(unhexAll(a)) }
+	// loadhist <hex src>… | <hex src>… | … : successive gqlparser.LoadSchema calls in one process
+	Ops["loadhist"] = func(a []string) string {
+		var sets [][]string
+		cur := []string{}
+		for _, w := range a {
+			if w == "|" {
+				sets = append(sets, unhexAll(cur))
+				cur = []string{}
+			} else {
+				cur = append(cur, w)
+			}
+		}
+		sets = append(sets, unhexAll(cur))
+		return LoadHistory(sets)
+	}
 }
